@@ -306,6 +306,7 @@ def run(ctx):
         tot_pts += r["points_total"]
         tot_run += r["points_run"]
         per[name] = {"kill_points": r["points_total"], "run": r["points_run"], "load_outcomes": r["outcomes"],
+                     "table_without_reverse_points": r.get("reverse_window_points", 0),
                      "site_kinds": len(r["sites"]), "failures": len(r["failures"])}
         for f in r["failures"]:
             nfail += 1
